@@ -78,6 +78,9 @@ POSITIONS = [
     ('with', 'def scope_function(parameter_name):\n with cm(parameter_name) as managed_value:\n  {E}\n return managed_value\nobs(scope_function(1))\n'),
     ('match', 'def scope_function(parameter_name):\n match parameter_name:\n  case captured_value:\n   {E}\n return captured_value\nobs(scope_function(1))\n'),
     ('global-decl', 'def scope_function(parameter_name):\n global counter_value\n counter_value=parameter_name\n {E}\n return counter_value\nobs(scope_function("x"))\n'),
+    # the trigger name itself is declared global in the function (and never assigned by the module): still the builtin
+    ('global-trigger-name', 'def scope_function(parameter_name):\n global {G}\n inner_local=parameter_name\n {E}\n return inner_local+inner_local\nobs(scope_function(1))\n'),
+    ('global-trigger-name-nested', 'def scope_function(parameter_name):\n global {G}\n def nested_function(nested_parameter):\n  nested_local=nested_parameter\n  {E}\n  return nested_local+nested_local\n return nested_function(parameter_name)\nobs(scope_function(1))\n'),
     ('nonlocal-closure', 'def scope_function(parameter_name):\n closed_over=parameter_name\n def inner_function():\n  nonlocal closed_over\n  closed_over+=1\n  {E}\n  return closed_over\n return inner_function()\nobs(scope_function(1))\n'),
 ]
 
@@ -93,7 +96,7 @@ def programs():
                     if 'counter_value' in expr:
                         continue        # would be a NameError before the definition; not interesting
                 else:
-                    src = ENRICH_HEAD + tmpl.replace('{E}', expr) + ENRICH_TAIL
+                    src = ENRICH_HEAD + tmpl.replace('{E}', expr).replace('{G}', name) + ENRICH_TAIL
                 yield label, src
     # star import (module level only; a star import inside a function is a syntax error)
     for where in ('first', 'middle', 'last'):
